@@ -29,6 +29,17 @@ def generate(tier, seed):
     n = 350 if tier == "quick" else 20000
     for k in range(n):
         cases.append({"kind": "built", "opt": "--protonate-all" if k % 3 == 0 else "", "seed": "%d:b:%d" % (seed, k), "cost": 30})
+    # two cysteines with S-S distances around and beyond the disulfide criterion, along a lattice
+    # axis, translated in small steps: the hydrogen set must be the same at every offset
+    k = 0
+    for d in (2300, 2450, 2550, 2800, 3200):
+        for axis in (0, 1, 2):
+            for opt in ("--protonate-all", ""):
+                if tier == "quick" and (axis + k) % 2:
+                    k += 1
+                    continue
+                cases.append({"kind": "cys-sweep", "d": d, "axis": axis, "opt": opt, "seed": "%d:cs:%d" % (seed, k), "cost": 60})
+                k += 1
     return cases
 
 
@@ -39,11 +50,61 @@ def setup(tier):
     protonate_mon.install()
 
 
+def cys_sweep(case, rng, viol, counts, classes):
+    from .. import obs, pdbio
+    from ..monitors import protonate_mon
+    from .c11 import _cys_residue
+    res = _cys_residue()
+    sg = [a for a in res if a.aname() == "SG"][0]
+    n0 = min(a.resnum for a in res)
+    r1 = pdbio.move(res, pdbio.IDENTITY, (-sg.x, -sg.y, -sg.z))
+    rot = rng.choice([r for r in pdbio.ROTATIONS if r != pdbio.IDENTITY])
+    r2 = pdbio.move(res, rot, (0, 0, 0))
+    sg2 = [a for a in r2 if a.aname() == "SG"][0]
+    v = [0, 0, 0]
+    v[case["axis"]] = case["d"] * rng.choice((1, -1))
+    r2 = pdbio.move(r2, pdbio.IDENTITY, (v[0] - sg2.x, v[1] - sg2.y, v[2] - sg2.z))
+    for a in r1:
+        a.chain, a.resnum = "A", 10 + a.resnum - n0
+    for a in r2:
+        a.chain, a.resnum = "B", 20 + a.resnum - n0
+    recs = r1 + [pdbio.raw("TER")] + r2
+    opts = [case["opt"]] if case["opt"] else []
+    origin = [rng.randrange(-30000, 30000) for _ in range(3)]
+    ref = None
+    for step in range(0, 130):
+        t = list(origin)
+        t[case["axis"]] += 25 * step
+        run = obs.run_single(pdbio.dump(pdbio.move(recs, pdbio.IDENTITY, tuple(t))), opts, with_atoms=True, write_pka=False)
+        counts["pipeline_runs"] = counts.get("pipeline_runs", 0) + 1
+        counts["sweep_poses"] = counts.get("sweep_poses", 0) + 1
+        if run.exc:
+            viol.append({"cls": "sweep-raises", "msg": run.exc})
+            break
+        conf = run.rec["confs"][run.rec["names"][0]]
+        protonate_mon.check_hydrogens_boundary(conf, viol, counts)
+        sig = sorted(((h["parents"][0][0], h["parents"][0][1] - t[0], h["parents"][0][2] - t[1], h["parents"][0][3] - t[2]),
+                      round(h["xyz"][0] * 1000) - t[0], round(h["xyz"][1] * 1000) - t[1], round(h["xyz"][2] * 1000) - t[2])
+                     for h in conf["hydrogens"] if h["parents"])
+        if ref is None:
+            ref = sig
+        elif len(sig) != len(ref) or any(a[0] != b[0] or max(abs(a[i] - b[i]) for i in (1, 2, 3)) > 1 for a, b in zip(sig, ref)):
+            viol.append({"cls": "pose-changes-hydrogen-count" if len(sig) != len(ref) else "pose-changes-hydrogen-position",
+                         "msg": "two CYS, S-S %.2f A along axis %d, options %r: at offset %.3f A %d hydrogens, at offset 0 %d" % (
+                             case["d"] / 1000.0, case["axis"], opts, step * 0.025, len(sig), len(ref))})
+            break
+    classes.append("cys-sweep:%s" % ("protonate-all" if opts else "default"))
+    return {"kind": "cys-sweep", "d": case["d"], "axis": case["axis"], "opts": opts}
+
+
 def run_case(case, tier):
     from .. import motion, obs, pdbio, sources, util
     from ..monitors import protonate_mon
     rng = random.Random(case["seed"])
     viol, counts, classes = [], {}, []
+    if case["kind"] == "cys-sweep":
+        desc = cys_sweep(case, rng, viol, counts, classes)
+        return util.finish(case, viol, counts, classes, True, desc)
     if case["kind"] == "file":
         recs = sources.full_protein(case["file"])
     elif rng.random() < 0.7:
